@@ -462,7 +462,8 @@ def check(ctx):
     fut = next((p for p in srv.params() if "future" in p and "loop" not in p), None)
     if fut is None:
         raise AnalysisError("execute_server_command has no result-future parameter")
-    csem = CompletionSem(fut)
+    from ..common import value_ctors
+    csem = CompletionSem(fut, value_ctors(repo))
     exs = csem.run(srv.node, frozenset([0]))
     rets = [x for x in exs if x.kind == "return"]
     ok = bool(rets) and all(x.state == frozenset([1]) for x in rets)
